@@ -2131,6 +2131,12 @@ func (ex *Exec) execRange1(st *State, n *ast.RangeStmt, ord int) []*State {
 		length = x.T
 		elemAt = nil
 	default:
+		if _, isMap := ex.info.TypeOf(n.X).Underlying().(*types.Map); isMap && ex.apiObj != nil {
+			// Go randomises map iteration order: constraints emitted inside such a loop come out in a different order
+			// on every compilation
+			ex.fail("determinism", ex.site("determinism"), "circuit code iterates over a map; the iteration order is randomised, so the emitted constraints are not a function of the dimensions alone", n)
+			panic(abortPath{})
+		}
 		panic(unsupported("range over %T at %s", xv, ex.pos(n)))
 	}
 	assign := func(s *State, e ast.Expr, v Val) {
